@@ -105,6 +105,7 @@ func init() {
 			return nil
 		},
 		"vpObserve": func(in *Interp, fr *Frame, args []Value, call *ssa.CallCommon) Value {
+			in.observes = append(in.observes, obsRec{concreteStr(args[0], "observe label"), args[1].(Iface)})
 			return nil
 		},
 		"vpUnwind": func(in *Interp, fr *Frame, args []Value, call *ssa.CallCommon) Value {
@@ -213,4 +214,53 @@ func (in *Interp) assert(cond *Term, label, knownID string, inClass *Term) {
 	}
 	// continue only where the assertion holds
 	in.assume(cond, "after assert "+label)
+}
+
+type obsRec struct {
+	label string
+	v     Iface
+}
+
+// renderObs evaluates an observed value under the path's model, in the same
+// textual form the native vpObserve prints.
+func (in *Interp) renderObs(o obsRec, ev *evalCtx) string {
+	r := "?"
+	if o.v.t == nil {
+		return o.label + "=<nil>"
+	}
+	switch x := o.v.v.(type) {
+	case Str:
+		b := make([]byte, x.Len())
+		for i := range b {
+			b[i] = byte(ev.eval(x.At(i)))
+		}
+		r = fmt.Sprintf("%q", string(b))
+	case *Term:
+		v := ev.eval(x)
+		s, w, signed, _ := scalarSort(o.v.t)
+		switch s {
+		case SBool:
+			r = fmt.Sprint(v != 0)
+		case SFP:
+			if w == 32 {
+				r = fmt.Sprintf("f%08x", v)
+			} else {
+				r = fmt.Sprintf("f%016x", v)
+			}
+		default:
+			if signed {
+				r = fmt.Sprint(sext64(v, w))
+			} else {
+				r = fmt.Sprint(v)
+			}
+		}
+		if in.findMethod(o.v.t, "String", nil) != nil {
+			r = "?" // named type with String method: native %v would call it
+		}
+	default:
+		if in.findMethod(o.v.t, "Error", nil) != nil {
+			r = "error"
+		}
+	}
+	return o.label + "=" + r
 }
